@@ -20,6 +20,18 @@ impl EventGen for ReuseElement {
         // we later resolve those on the target element in the context
         // of any vars set by this.
         reuse_element.eval_attributes(context)?;
+        // The attributes become variables of the instance: hold them to the same
+        // length limit as `<var>`, or a recursive template could grow a value
+        // (t="$t $t") without bound.
+        for (key, value) in reuse_element.get_attrs() {
+            if value.len() > context.config.var_limit as usize {
+                return Err(SvgdxError::VarLimitError(
+                    key,
+                    value.len(),
+                    context.config.var_limit,
+                ));
+            }
+        }
 
         context.push_element(&reuse_element);
         let elref = reuse_element
